@@ -205,9 +205,9 @@ func FinishSpeculativeLength(b []byte, pos int) []byte {
 		if cap(b) >= pos+msiz+mlen {
 			b = b[:pos+msiz+mlen]
 		} else {
-			newSlice := make([]byte, pos+msiz+mlen)
-			copy(newSlice, b)
-			b = newSlice
+			// grow through append (amortised doubling): an exact-size reallocation per finished sub-message
+			// made the allocation of deeply nested messages quadratic in the nesting depth
+			b = append(b, make([]byte, pos+msiz+mlen-len(b))...)
 		}
 		copy(b[pos+msiz:], b[pos+speculativeLength:])
 	}
